@@ -560,6 +560,27 @@ func (s *connScen) text() string {
 	return strings.Join(p, ",")
 }
 
+// replayText: the scenario plus how it was scheduled and filled in (keys the model ignores).
+func (s *connScen) replayText() string {
+	t := s.text()
+	if s.RelMs != 0 {
+		t += ",rel=" + strconv.Itoa(s.RelMs)
+	}
+	if s.HoldPoint != "" {
+		t += ",hp=" + s.HoldPoint + ",hm=" + strconv.Itoa(s.HoldMs)
+	}
+	if s.Seed != 0 {
+		t += ",seed=" + strconv.FormatUint(s.Seed, 10)
+	}
+	if s.BadV != 0 {
+		t += ",badv=" + strconv.Itoa(s.BadV)
+	}
+	if len(s.Behav) > 0 {
+		t += ",beh=" + strings.Join(s.Behav, "/")
+	}
+	return t
+}
+
 func parseConnScenText(t string) (*connScen, error) {
 	s := &connScen{Rd: -1, Cl: "q", HkOK: true}
 	for _, kv := range strings.Split(t, ",") {
@@ -590,6 +611,18 @@ func parseConnScenText(t string) (*connScen, error) {
 			s.Half = v == "1"
 		case "hk":
 			s.HkOK = v == "ok"
+		case "rel":
+			s.RelMs, _ = strconv.Atoi(v)
+		case "hp":
+			s.HoldPoint = v
+		case "hm":
+			s.HoldMs, _ = strconv.Atoi(v)
+		case "seed":
+			s.Seed, _ = strconv.ParseUint(v, 10, 64)
+		case "badv":
+			s.BadV, _ = strconv.Atoi(v)
+		case "beh":
+			s.Behav = strings.Split(v, "/")
 		default:
 			return nil, errors.New("bad scenario key: " + k)
 		}
@@ -1333,7 +1366,9 @@ func runLtsSrv(ctx *Ctx) {
 			}
 			for rep := 0; rep < 20; rep++ { // a schedule-dependent failure may need several attempts
 				c := *sc
-				c.Seed = uint64(rep)
+				if rep > 0 {
+					c.Seed = sc.Seed + uint64(rep)
+				}
 				groups = append(groups, []*connScen{&c})
 			}
 		}
@@ -1362,7 +1397,7 @@ func runLtsSrv(ctx *Ctx) {
 			}
 			ctx.Res.Violate(report.Violation{Property: "C08", Oracle: "no-crash", Key: "srv:crash " + class,
 				Detail: "the server process died while running [" + strings.Join(names, " | ") + "]: " + class + " at " + crashFrames(jr.stderr),
-				Line:   connJobLine(g[0], "resp=0 inv=0 ended=- hooks=c1t0 crash=1")})
+				Line:   "lts.member srvconn " + g[0].replayText() + " resp=0 inv=0 ended=- hooks=c1t0 crash=1"})
 			ctx.Res.Count("srv.crashed")
 			// the model must allow the crash too (it does not, for the current parameters)
 			ctx.Add(connJobLine(g[0], "resp=0 inv=0 ended=- hooks=c1t0 crash=1"), "ok in", true, "C08")
@@ -1375,7 +1410,7 @@ func runLtsSrv(ctx *Ctx) {
 		}
 		for _, v := range res.Viol {
 			ctx.Res.Violate(report.Violation{Property: "C08", Oracle: v.Oracle, Key: v.Key, Detail: v.Detail + " [" + g[0].text() + "]",
-				Line: connJobLine(g[0], res.Outcomes[0])})
+				Line: "lts.member srvconn " + g[0].replayText() + " " + res.Outcomes[0]})
 		}
 		for j, sc := range g {
 			line := connJobLine(sc, res.Outcomes[j])
@@ -1409,6 +1444,8 @@ type srvScen struct {
 
 func (s *srvScen) text() string { return fmt.Sprintf("n=%d,k=%s,sd=%s", s.N, s.Kind, s.Sd) }
 
+func (s *srvScen) replayText() string { return s.text() + ",seed=" + strconv.FormatUint(s.Seed, 10) }
+
 func parseSrvScenText(t string) (*srvScen, error) {
 	s := &srvScen{N: 1, Kind: "i", Sd: "any"}
 	for _, kv := range strings.Split(t, ",") {
@@ -1427,6 +1464,8 @@ func parseSrvScenText(t string) (*srvScen, error) {
 			s.Kind = v
 		case "sd":
 			s.Sd = v
+		case "seed":
+			s.Seed, _ = strconv.ParseUint(v, 10, 64)
 		default:
 			return nil, errors.New("bad scenario key: " + k)
 		}
@@ -1718,7 +1757,7 @@ func runLtsServer(ctx *Ctx) {
 			}
 			for rep := 0; rep < 20; rep++ {
 				c := *sc
-				c.Seed = uint64(rep)
+				c.Seed = sc.Seed + uint64(rep)
 				scens = append(scens, &c)
 			}
 		}
@@ -1752,7 +1791,8 @@ func runLtsServer(ctx *Ctx) {
 		}
 		line := "lts.member server " + sc.text() + " " + res.Outcomes[0]
 		for _, v := range res.Viol {
-			ctx.Res.Violate(report.Violation{Property: "C16", Oracle: v.Oracle, Key: v.Key, Detail: v.Detail + " [" + sc.text() + "]", Line: line})
+			ctx.Res.Violate(report.Violation{Property: "C16", Oracle: v.Oracle, Key: v.Key, Detail: v.Detail + " [" + sc.text() + "]",
+				Line: "lts.member server " + sc.replayText() + " " + res.Outcomes[0]})
 		}
 		if !seen[line] {
 			seen[line] = true
